@@ -210,7 +210,7 @@ def run(ctx):
                 'index-coded data; plus an exhaustive sweep of all slices on lengths 0..6, bounds in [-8,8]+None, steps 1..4. '
                 'A case is one (input ledger, op); non-trivial = the op returned a signal with >= 1 sample or raised; distinct by '
                 '(class, len, rate, start, op).')
-    ctx.trusted = ['Coq 8.16.1 kernel; vm_compute for case evaluation', 'Lib/PySlice.v = CPython slice.indices (modelled; validated here)',
+    ctx.trusted = ['translator T4 translate/py_ledger2coq.py (Signal._time_slice, dt, time_length, stop_time as exact-rational terms; `.to(unit)` = identity) and T6 (fast_len crop)', 'Coq 8.16.1 kernel; vm_compute for case evaluation', 'Lib/PySlice.v = CPython slice.indices (modelled; validated here)',
                    'astropy Time/Quantity arithmetic = exact rational arithmetic within max(50 ps, 1e-15*elapsed) (measured)',
                    'harness/exact.py (TAI seconds), this generator and the generated Cases/*.v text']
     ctx.assumptions = ['astropy Time/Quantity rounding stays below the stated tolerance (worst ratio is reported)',
